@@ -1,16 +1,24 @@
 /-
 Driver for stream `mpt` (C10): one op per line, one observation per line. Keys/values are hex
-(`-` = empty). The state is the model's fully expanded trie; `H` is the real double SHA-256, so
-roots and proofs are compared with the implementation byte for byte.
+(`-` = empty). The state is the model's fully expanded trie AND the in-memory representation
+with HashNodes over a node store (Model/Mpt/Lazy*.lean), both driven by every line: put / del /
+batch / get / root are answered from the lazy model (errors included) and cross-checked against the
+expanded one (`MISMATCH…` if they differ, which Props/C10Lazy.lean proves impossible while every
+node can be loaded); find / seek / proof are answered from the expanded trie. `H` is the real double
+SHA-256, so roots and proofs are compared with the implementation byte for byte. The node store is
+a hash map from node hash to bytes (the model's `LStore` is its lookup function); `drop` removes a
+record, after which only the lazy model is meaningful (the harness sends only put / del / batch /
+get / root from then on).
 
   case <k>                         -> case <k>                  (reset to the empty trie)
   put <key> <val>                  -> ok | err                  trie.go:146-165 (incl. the argument checks)
   del <key>                        -> ok | err                  trie.go:284-295
   batch <key>:<val|x> ...          -> ok <n>                    MapToMPTBatch + PutBatch (x = delete)
-  flush | collapse <d> | reopen    -> ok                        no change of the expanded trie
+  flush | collapse <d> | reopen    -> ok                        Flush; Flush+Collapse(d); Flush+NewTrie(HashNode(root))
+  drop <hash>                      -> ok                        the DataMPT record of that hash is deleted from the store
   root                             -> root <hex>                StateRoot
   get <key>                        -> val <hex> | none | err
-  find <prefix> <from|nil> <max>   -> find <k>=<v>,... | err    Trie.Find
+  find <prefix> <from|nil> <max>   -> find <k>=<v>,... | err    Trie.Find (stop condition as written: `findX`)
   seek <prefix> <start> <0|1>      -> seek <k>=<v>,...          TrieStore.Seek (keys without the 0x70 byte)
   proof <key>                      -> proof <p1>,<p2>,... | err GetProof
   verify <root> <key> <p1>,<p2>..  -> ok <val> | fail | loop   VerifyProof (`_` = no proofs)
@@ -20,6 +28,9 @@ import NeoModel.Base.Sha256
 import NeoModel.Model.Mpt
 import NeoModel.Model.Mpt.Traverse
 import NeoModel.Model.Mpt.Proof
+import NeoModel.Model.Mpt.LazyBatch
+import NeoModel.Model.Mpt.FindExact
+import Std.Data.HashMap
 open NeoModel NeoModel.Mpt
 
 def H : Bytes → Bytes := Sha256.hash2
@@ -44,66 +55,114 @@ def showKVs (pre : Bytes) (l : List (Path × Val)) : String :=
   if l.isEmpty then "-" else
     ",".intercalate (l.map fun e => Hex.encode (pre ++ fromNibbles e.1) ++ "=" ++ Hex.encode e.2)
 
-def step (t : Node) (ws : List String) : Node × String :=
+/-- driver state: expanded trie, in-memory representation, node store, "a record was dropped". -/
+structure DSt where
+  t : Node
+  l : LNode
+  st : Std.HashMap Bytes Bytes
+  dropped : Bool
+
+def DSt.init : DSt := ⟨.empty, .empty, {}, false⟩
+
+/-- the model's store = the map's lookup function. -/
+def DSt.store (s : DSt) : LStore := fun h => s.st.get? h
+
+/-- fuel of the lazy operations (Props/C10Lazy.lean: `2·height t + 3` suffices; keys are ≤ 136 nibbles). -/
+def fuel : Nat := 2000
+
+/-- `Flush`: the records of all in-memory nodes are written (Model/Mpt/Lazy.lean `lflush`). -/
+def DSt.flush (s : DSt) : DSt :=
+  { s with st := (lnodes H s.l).foldl (fun m e => m.insert e.1 e.2) s.st }
+
+def step (s : DSt) (ws : List String) : DSt × String :=
+  let t := s.t
   match ws with
-  | ["case", k] => (.empty, s!"case {k}")
+  | ["case", k] => (DSt.init, s!"case {k}")
   | ["put", k, v] =>
     match Hex.decode k, Hex.decode v with
     | some kb, some vb =>
-      if kb.length = 0 ∨ kb.length > maxKeyLength ∨ vb.length > maxValueLength then (t, "err")
-      else (put t (toNibbles kb) vb, "ok")
-    | _, _ => (t, "bad-op")
+      if kb.length = 0 ∨ kb.length > maxKeyLength ∨ vb.length > maxValueLength then (s, "err")
+      else
+        let r := lput s.store fuel s.l (toNibbles kb) vb
+        ({ s with l := r.1, t := if s.dropped then t else put t (toNibbles kb) vb }, if r.2 then "err" else "ok")
+    | _, _ => (s, "bad-op")
   | ["del", k] =>
     match Hex.decode k with
-    | some kb => if kb.length > maxKeyLength then (t, "err") else (delete t (toNibbles kb), "ok")
-    | none => (t, "bad-op")
+    | some kb =>
+      if kb.length > maxKeyLength then (s, "err")
+      else
+        let r := ldel s.store fuel s.l (toNibbles kb)
+        ({ s with l := r.1, t := if s.dropped then t else delete t (toNibbles kb) }, if r.2 then "err" else "ok")
+    | none => (s, "bad-op")
   | "batch" :: items =>
     match items.mapM parseKV with
-    | some m => (putBatch t (mapToBatch m), s!"ok {m.length}")
-    | none => (t, "bad-op")
-  | ["flush"] => (t, "ok")
-  | ["collapse", _] => (t, "ok")
-  | ["reopen"] => (t, "ok")
-  | ["root"] => (t, "root " ++ Hex.encode (rootHash H t))
+    | some m =>
+      let r := lputBatch s.store fuel s.l (mapToBatch m)
+      ({ s with l := r.1, t := if s.dropped then t else putBatch t (mapToBatch m) },
+        if r.2 then "err" else s!"ok {m.length}")
+    | none => (s, "bad-op")
+  | ["flush"] => (s.flush, "ok")
+  | ["collapse", d] =>
+    match d.toNat? with
+    | some n => let s' := s.flush; ({ s' with l := lcollapse H n s'.l }, "ok")
+    | none => (s, "bad-op")
+  | ["reopen"] => let s' := s.flush; ({ s' with l := lreopen H s'.l }, "ok")
+  | ["drop", h] =>
+    match Hex.decode h with
+    | some hb => ({ s with st := s.st.erase hb, dropped := true }, "ok")
+    | none => (s, "bad-op")
+  | ["root"] =>
+    let r := lrootHash H s.l
+    if !s.dropped && r != rootHash H t then (s, "MISMATCH-root " ++ Hex.encode r ++ " " ++ Hex.encode (rootHash H t))
+    else (s, "root " ++ Hex.encode r)
   | ["get", k] =>
     match Hex.decode k with
     | some kb =>
-      if kb.length > maxKeyLength then (t, "err")
+      if kb.length > maxKeyLength then (s, "err")
       else
-        match lookup t (toNibbles kb) with
-        | some v => (t, "val " ++ Hex.encode v)
-        | none => (t, "none")
-    | none => (t, "bad-op")
+        match lget s.store fuel s.l (toNibbles kb) with
+        | some x =>
+          if !s.dropped && lookup t (toNibbles kb) != some x.2 then (s, "MISMATCH-get")
+          else ({ s with l := x.1 }, "val " ++ Hex.encode x.2)
+        | none =>
+          if !s.dropped && (lookup t (toNibbles kb)).isSome then (s, "MISMATCH-get")
+          else (s, "none")
+    | none => (s, "bad-op")
   | ["find", p, f, m] =>
     match Hex.decode p, (if f == "nil" then some none else (Hex.decode f).map some), m.toNat? with
     | some pb, some fo, some mx =>
-      if pb.length > maxKeyLength ∨ (fo.getD []).length > maxKeyLength - pb.length then (t, "err")
+      if pb.length > maxKeyLength ∨ (fo.getD []).length > maxKeyLength - pb.length then (s, "err")
       else
-        match find t (toNibbles pb) (fo.map toNibbles) mx with
-        | some l => (t, "find " ++ showKVs pb l)
-        | none => (t, "err")
-    | _, _, _ => (t, "bad-op")
-  | ["seek", p, s, b] =>
-    match Hex.decode p, Hex.decode s with
-    | some pb, some sb => (t, "seek " ++ showKVs pb (seek t (toNibbles pb) (toNibbles sb) (b == "1")))
-    | _, _ => (t, "bad-op")
+        match findX t (toNibbles pb) (fo.map toNibbles) mx with
+        | some l => (s, "find " ++ showKVs pb l)
+        | none => (s, "err")
+    | _, _, _ => (s, "bad-op")
+  | ["seek", p, st, b] =>
+    match Hex.decode p, Hex.decode st with
+    | some pb, some sb => (s, "seek " ++ showKVs pb (seek t (toNibbles pb) (toNibbles sb) (b == "1")))
+    | _, _ => (s, "bad-op")
   | ["proof", k] =>
     match Hex.decode k with
     | some kb =>
-      if kb.length > maxKeyLength then (t, "err")
+      if kb.length > maxKeyLength then (s, "err")
       else
         match getProof H t (toNibbles kb) with
-        | some ps => (t, "proof " ++ hexList ps)
-        | none => (t, "err")
-    | none => (t, "bad-op")
+        | some ps =>
+          -- GetProof loads the HashNodes on the path like Get does (proof.go:22-25 `t.root = r`)
+          let l' := match lget s.store fuel s.l (toNibbles kb) with
+            | some x => x.1
+            | none => s.l
+          ({ s with l := l' }, "proof " ++ hexList ps)
+        | none => (s, "err")
+    | none => (s, "bad-op")
   | ["verify", r, k, ps] =>
     match Hex.decode r, Hex.decode k, parseHexList ps with
     | some rb, some kb, some pl =>
       match verifyProof H rb kb pl with
-      | .found v => (t, "ok " ++ Hex.encode v)
-      | .notFound => (t, "fail")
-      | .loop => (t, "loop")
-    | _, _, _ => (t, "bad-op")
-  | _ => (t, "bad-op")
+      | .found v => (s, "ok " ++ Hex.encode v)
+      | .notFound => (s, "fail")
+      | .loop => (s, "loop")
+    | _, _, _ => (s, "bad-op")
+  | _ => (s, "bad-op")
 
-def main : IO Unit := Proto.run Node.empty step
+def main : IO Unit := Proto.run DSt.init step
